@@ -496,11 +496,19 @@ namespace hgraph
                                 TSDDataMutationView *error_mutation,
                                 DateTime evaluation_time)
         {
+            // Best-effort, like Graph::stop: every live child gets its stop
+            // attempt. A child whose stop throws must not leave the children in
+            // later slots running (at the map's own stop nothing else would
+            // stop them before run() returns); the first failure propagates.
+            FirstExceptionRecorder exceptions;
             for (std::size_t slot = 0; slot < storage.entries.slot_capacity(); ++slot)
             {
-                remove_entry_at_slot(view, context, storage, output_mutation, error_mutation,
-                                     slot, evaluation_time);
+                exceptions.capture([&] {
+                    remove_entry_at_slot(view, context, storage, output_mutation, error_mutation,
+                                         slot, evaluation_time);
+                });
             }
+            exceptions.rethrow_if_any();
         }
 
         void create_entry_at_slot(const NodeView &view, const MapNodeContext &context, MapNodeStorage &storage,
